@@ -9,8 +9,8 @@ LEVEL = "exploration"
 RULE = ("One scenario in each of 10 contexts {plain scenario, outline row} x {no background, feature background, feature + "
         "rule background}, plus outline rows whose inherited background steps are parametrised with <column> placeholders "
         "at the feature level, the rule level or both, followed by a sibling scenario; ALL outcome sequences over {pass, fail, error, pending, "
-        "undefined, skip, kbi, convert} of length <= 3 (quick) / <= 4 (thorough; 5 in the plain context), background steps "
-        "drawing outcomes too; x {@wip} x {dry-run} x {continue_after_failed_step} x {sync, async step functions}. Oracle: "
+        "undefined, skip, kbi, convert} (and converters raising KeyError / AssertionError / RuntimeError) of length <= 3 (quick) / <= 4 (thorough; 5 in the plain context), background steps "
+        "drawing outcomes too; x {@wip} x {dry-run} x {continue_after_failed_step} x {sync, async step functions (async: length <= 2 in quick)}. Oracle: "
         "predicted call log (which step function, in which scenario, in which order, inherited background first) and "
         "predicted status of every step from the reference interpreter. Histories: the same model object run 2 (3) times "
         "with a different outcome table per run must end with the statuses of a fresh object run with the last table. "
@@ -97,11 +97,22 @@ def cases(tier):
                     if L == 4 and (dry or (wip and cafs)):
                         continue
                     yield (kind, nbg, seq, wip, dry, cafs, 0)
-                    if L <= 3 and not dry:
-                        yield (kind, nbg, seq, wip, dry, cafs, 1)
+                    if L <= (2 if quick else 3) and not dry:
+                        yield (kind, nbg, seq, wip, dry, cafs, 1)      # async step functions
     if not quick:
         for seq in itertools.product(OUT8[:6], repeat=5):
             yield ("S", 0, seq, 0, 0, 0, 0)
+    # the class of the exception raised by a type converter must not matter (KeyError, AssertionError, RuntimeError)
+    CONV = ("pass", "fail", "convertK", "convertA", "convertR", "undefined")
+    for L in (1, 2, 3):
+        for seq in itertools.product(CONV, repeat=L):
+            if not any(o.startswith("convert") for o in seq):
+                continue
+            for kind, nbg in CONTEXTS:
+                if L <= nbg or (L == 3 and kind.startswith("P")):
+                    continue
+                for wip, dry, cafs in ((0, 0, 0), (0, 1, 0), (0, 0, 1), (1, 0, 0)):
+                    yield (kind, nbg, seq, wip, dry, cafs, 0)
 
 
 # ---- histories: repeated runs of the same scenario object ----------------------------------------
